@@ -1,7 +1,7 @@
 """Shared codec agreement rules (used by C11, C06, C01)."""
 from ..engine import *
 from ..codec import *
-from ..analysis import term_str, strip, term_sig
+from ..analysis import term_str, strip, term_sig, subterms
 
 V = ("varint", "u64")
 
@@ -44,6 +44,18 @@ def three_way(ctx, prop, rule, ty, ref, fns=None, const_fields=()):
     okdec = len(dec) == len(enc) and all(reads_all(a.cls, b.cls) for a, b in zip(dec, enc))
     ctx.check(prop, rule, "%s: decode reads what encode writes" % ty, okdec, "decode sequence has the same %d byte shapes in the same order" % len(enc),
               "%s::decode reads %s but encode writes %s" % (ty, [e.cls for e in dec], [e.cls for e in enc]), [loc(d["decode"], e.site) for e in dec], key="%s|%s|%s|decode shapes" % (prop, rule, ty))
+    # a step of a decoder may depend on values it decoded (a version byte, a length, a flag) but
+    # never on how many bytes happen to remain: a message cut exactly at a field boundary must not
+    # decode as a shorter valid message
+    lenient = []
+    for e in dec + enc + siz:
+        for g in e.guards:
+            for x in subterms(g[1]):
+                if isinstance(x, tuple) and ((x[0] == "call" and len(x) == 4 and x[2].split("::")[-1] in ("is_empty", "len") and x[3] and "buffer" in term_str(x[3][0])) or (x[0] == "len" and "buffer" in term_str(x[1]))):
+                    lenient.append((e.field or e.cls, term_str(g[1])[:70]))
+    ctx.check(prop, rule, "%s: no codec step depends on the number of bytes remaining" % ty, not lenient, "conditions of the steps test decoded values only",
+              "%s: a codec step runs or not depending on the remaining buffer length (%s): a strict prefix that ends at that boundary decodes as a valid, shorter message" % (ty, lenient[:2]),
+              key="%s|%s|%s|length-dependent step" % (prop, rule, ty))
     # size vs encode
     szf = set(e.field for e in siz)
     typed = [e for e in enc if e.kind == "encode" and (e.cls[0] != "fixed" or e.field in szf)]
